@@ -1310,6 +1310,91 @@ def run(tier, replay):
             continue
         c.violation(m["key"], "silently accepted: %s: %s" % (cf["name"], m["what"]), files=[sp],
                     payload={"mutated": m["text"], "original_canonical": cf["canon"]})
+    # ---- strictness is not history dependent: the same verdicts after an earlier rejection in the same module ----------
+    # (scripting interfaces clear the error state before every command: `clearerr`)
+    nseq = (24 if tier == "quick" else 150) if "b" in PARTS else 0
+    seqjobs = []
+    inner = {}
+    for m in muts:
+        if m["cls"] == "misspelled_keyword" and not m["key"].startswith("misspelled_keyword:global") and m["cfg"]["idx"] not in inner:
+            inner[m["cfg"]["idx"]] = m
+    for cf in valid:
+        if len(seqjobs) >= nseq:
+            break
+        m1 = inner.get(cf["idx"])
+        if m1 is None:
+            continue
+        seqjobs.append((cf, m1))
+    BAD_TOP = "\nnoSuchGlobalKeyword 12\n"
+
+    def heredoc(tag, text):
+        return "config <<%s\n%s%s%s\n" % (tag, text, "" if text.endswith("\n") else "\n", tag)
+
+    def seqrun(job):
+        cf, m1 = job
+        hdr = corpus.scenario_header(cf["sysm"], tfmode="same") + "temp 300\ndt 1\nmodule\n"
+        steps = "init\n" + "".join(corpus.pos_line(f) + "\nstep\n" for f in cf["frames"])
+        valid_text = cf["canon"]
+        out = {}
+        # fresh controls
+        out["fresh_bad"] = common.run_esim("asan", hdr + heredoc("EOC_A", valid_text + BAD_TOP), wd, "q%d_fb" % cf["idx"])
+        out["fresh_ok"] = common.run_esim("asan", hdr + heredoc("EOC_A", valid_text) + steps, wd, "q%d_fo" % cf["idx"])
+        # after a rejection: a misspelt top-level keyword at the end of an otherwise valid configuration
+        out["seq_bad"] = common.run_esim("asan", hdr + heredoc("EOC_A", m1["text"]) + "clearerr\n" + heredoc("EOC_B", valid_text + BAD_TOP), wd, "q%d_sb" % cf["idx"])
+        # after a rejection: the corrected configuration
+        out["seq_ok"] = common.run_esim("asan", hdr + heredoc("EOC_A", m1["text"]) + "clearerr\n" + heredoc("EOC_B", valid_text) + steps, wd, "q%d_so" % cf["idx"])
+        return out
+
+    nseq_done = 0
+    for (cf, m1), out in zip(seqjobs, common.pmap(seqrun, seqjobs)):
+        c.count()
+        files = [out[k][2] for k in ("seq_bad", "seq_ok", "fresh_bad", "fresh_ok")]
+        died = [k for k in out if out[k][0]["sig"] or out[k][0]["timeout"] or not [e for e in out[k][1] if e.get("ev") == "end"]]
+        if any(k.startswith("fresh") for k in died):
+            c.inconc("sequence case %s: fresh control did not complete" % cf["name"])
+            continue
+        if died:
+            r = out[died[0]][0]
+            kind = crash_kind(r["err"], r["timeout"]) or ("signal-%s" % r["sig"])
+            c.violation("sequence:%s:%s" % (kind, src_frame(r["err"])),
+                        "%s: after the rejected configuration (%s) a further configuration takes the host down (%s): %s" % (
+                            cf["name"], m1["what"], died[0], (common.sanitizer_report(r["err"]) or r["err"][-300:])), files=files,
+                        payload={"rejected_first": m1["text"], "then": cf["canon"]})
+            continue
+        cfg_fb = [e for e in out["fresh_bad"][1] if e.get("ev") == "config"]
+        cfg_sb = [e for e in out["seq_bad"][1] if e.get("ev") == "config"]
+        cfg_so = [e for e in out["seq_ok"][1] if e.get("ev") == "config"]
+        if len(cfg_sb) != 2 or len(cfg_so) != 2 or not cfg_fb:
+            c.inconc("sequence case %s: configuration events missing" % cf["name"])
+            continue
+
+        def rej(e):
+            return bool(e.get("rc")) or bool(e.get("err"))
+        if not rej(cfg_sb[0]) or not rej(cfg_fb[0]):
+            c.inconc("sequence case %s: the first configuration was not rejected, or the control accepted the unknown keyword" % cf["name"])
+            continue
+        nseq_done += 1
+        c.nontrivial("sequence:%s" % cf["name"])
+        if not rej(cfg_sb[1]):
+            c.violation("sequence:unknown_keyword_accepted_after_rejection", "%s: a configuration ending with an unknown top-level keyword is rejected by a "
+                        "fresh module (%s) but accepted after an earlier rejected configuration (%s)" % (
+                            cf["name"], (cfg_fb[0].get("errs") or ["?"])[-1][:120].strip(), m1["what"]), files=files,
+                        payload={"rejected_first": m1["text"], "then": cf["canon"] + BAD_TOP})
+            continue
+        # the corrected configuration: same verdict and same model as in a fresh module, if the rejection left no object behind
+        if cfg_sb[0].get("ncv", 0) == 0 and cfg_sb[0].get("nbias", 0) == 0 and accepted(out["fresh_ok"][1]):
+            if rej(cfg_so[1]):
+                c.violation("sequence:valid_configuration_refused_after_rejection", "%s: accepted by a fresh module, refused after the rejected configuration (%s): %s" % (
+                    cf["name"], m1["what"], (cfg_so[1].get("errs") or ["?"])[-1][:200]), files=files, payload={"rejected_first": m1["text"], "then": cf["canon"]})
+                continue
+            sa = [e for e in out["fresh_ok"][1] if e.get("ev") == "step"]
+            sb = [e for e in out["seq_ok"][1] if e.get("ev") == "step"]
+            if [(e.get("cv"), e.get("en"), e.get("af")) for e in sa] != [(e.get("cv"), e.get("en"), e.get("af")) for e in sb]:
+                c.violation("sequence:model_differs_after_rejection", "%s: the corrected configuration gives another model after the rejected one (%s)" % (
+                    cf["name"], m1["what"]), files=files, payload={"rejected_first": m1["text"], "then": cf["canon"]})
+                continue
+            c.bump("sequence_corrected_configurations_equal")
+    c.extra["sequence_cases"] = nseq_done
     c.extra["mutation_runs"] = nm
     c.extra["mutation_runs_by_class"] = dict(by_class)
     c.extra["trailing_text_after_number"] = trailing
